@@ -7,6 +7,8 @@ import (
 	"crypto/ed25519"
 	"crypto/rand"
 	"crypto/rsa"
+	"crypto/sha256"
+	"encoding/base64"
 	"sync"
 	"encoding/hex"
 	"encoding/pem"
@@ -15,7 +17,9 @@ import (
 
 	"filippo.io/age"
 	V "filippo.io/age/internal/zzverif"
+	"golang.org/x/crypto/chacha20poly1305"
 	"golang.org/x/crypto/curve25519"
+	"golang.org/x/crypto/hkdf"
 	"golang.org/x/crypto/ssh"
 )
 
@@ -351,4 +355,59 @@ func Harness_C20_shared_ssh() {
 	wg.Wait()
 	V.Reach("used")
 	V.Assert(bad == 0, sharedWriteMsg)
+}
+
+// ---------------------------------------------------------------------------
+// C05: the ssh-ed25519 stanza is byte-exact (differential against a reference
+// written from the format description, Appendix A.5)
+
+func refKDF(ikm, salt []byte, info string) []byte {
+	out := make([]byte, 32)
+	io.ReadFull(hkdf.New(sha256.New, ikm, salt, []byte(info)), out)
+	return out
+}
+
+// Harness_C05_ssh_ed25519_stanza: for an arbitrary Ed25519 public key (its
+// bytes and its Montgomery form are symbolic, so every key tag is an instance),
+// file key and ephemeral secret, Ed25519Recipient.Wrap produces exactly the
+// stanza the format prescribes: type, 4-byte key tag in unpadded standard
+// base64, share, and the file key sealed under the prescribed key.
+func Harness_C05_ssh_ed25519_stanza() {
+	V.InstallTape()
+	pub := V.Bytes("pub", 32)
+	mont := V.Bytes("mont", 32)
+	fileKey := V.Bytes("fk", 16)
+	key := fakeKey{ed25519.PublicKey(pub)}
+	r := &Ed25519Recipient{sshKey: key, theirPublicKey: mont}
+	st, err := r.Wrap(fileKey)
+	if err != nil {
+		V.Reach("refused") // an arbitrary 32-byte string may be a low-order point
+		return
+	}
+	V.Assert(len(st) == 1, "Wrap did not return one stanza")
+	draws := V.Draws()
+	V.Assert(len(draws) == 1 && len(draws[0]) == 32, "unexpected random draws")
+	if len(st) != 1 || len(draws) != 1 {
+		return
+	}
+	eph := draws[0]
+	// reference
+	wire := key.Marshal()
+	sum := sha256.Sum256(wire)
+	tag := base64.RawStdEncoding.EncodeToString(sum[:4])
+	share, _ := curve25519.X25519(eph, curve25519.Basepoint)
+	shared, _ := curve25519.X25519(eph, mont)
+	tweak := refKDF(nil, wire, "age-encryption.org/v1/ssh-ed25519")
+	shared, _ = curve25519.X25519(tweak, shared)
+	salt := append(append([]byte{}, share...), mont...)
+	wk := refKDF(shared, salt, "age-encryption.org/v1/ssh-ed25519")
+	a, _ := chacha20poly1305.New(wk)
+	body := a.Seal(nil, make([]byte, 12), fileKey, nil)
+	V.Reach("compared")
+	V.Assert(st[0].Type == "ssh-ed25519" && len(st[0].Args) == 2, "ssh-ed25519 stanza type or argument count differs from the format")
+	if len(st[0].Args) == 2 {
+		V.Assert(st[0].Args[0] == tag, "ssh-ed25519 key tag differs from the format (4 bytes of SHA-256 of the wire key, unpadded standard base64)")
+		V.Assert(st[0].Args[1] == base64.RawStdEncoding.EncodeToString(share), "ssh-ed25519 share differs from the format")
+	}
+	V.Assert(string(st[0].Body) == string(body), "ssh-ed25519 stanza body differs from the format")
 }
